@@ -345,6 +345,33 @@ def check_distribution(run, case):
         session.drop_session(sn)
         repo.drop_rules(name)
 
+LONG_N = 100005
+def check_long_run(run, case):
+    """More than 100 000 walks in one process, through the command line: whatever the session does every so many walks (progress, statistics), standard output holds
+    exactly N lines and every one is a word of the ruleset (seeded C16s: a progress line every 100 000th walk, printed to standard output by mistake)."""
+    name, path = gstream.materialise(case['spec'], 'c16l')
+    sn = session.new_session_name('c16l')
+    try:
+        lang = oracles.Language(oracles.Disk(path), True, False)
+        words = set()
+        for bi, idx, pr, labs in lang.preterminals(cap=5000):
+            words.update(lang.expand(labs, list(idx)))
+        for mode in ('random_walk', 'honeywords'):
+            out, err, rc, to = cli.run_cli('pcfg_guesser.py', ['-r', name, '-s', sn, '-m', mode, '-n', str(LONG_N)], stdin_mode='eof', timeout=600, max_out=1 << 25)
+            run.ev('cli_runs'); run.ev('long_random_runs')
+            if to:
+                run.inconc(f'{mode} -n {LONG_N} did not end within the watchdog'); return
+            lines = out.decode('utf-8', 'replace').split('\n')[:-1] if out else []
+            run.ev('GUESS', len(lines))
+            foreign = [(i + 1, w[:80]) for i, w in enumerate(lines) if w not in words]
+            if foreign or len(lines) != LONG_N:
+                run.violation(f'pcfg_guesser.py -m {mode} -n {LONG_N}: standard output holds {len(lines)} lines, {len(foreign)} of them are not words of the ruleset (first: {foreign[:2]})', case,
+                              observed={'stderr_tail': err[-200:].decode('utf-8', 'replace')}); return
+        run.case(h(['long-run', case['spec']['base'], case['spec']['terms']]))
+    finally:
+        session.drop_session(sn)
+        repo.drop_rules(name)
+
 def run(run, rng):
     run.required_events = ['probes', 'honeyword_expansions', 'cli_runs', 'random_walk_pairs']
     run.min_distinct = 30
@@ -361,6 +388,10 @@ def run(run, rng):
     for k, shape in ((2, 'two'), (3, 'three')):
         if run.shard[0] == k % run.shard[1]:
             run.guard(distribution_case(rng, shape), check_distribution, seconds=600)
+    if run.shard[0] == 3 % run.shard[1]:
+        import random as _r
+        lc = distribution_case(_r.Random(4242), 'two'); lc['long_run'] = True
+        run.guard(lc, check_long_run, seconds=900)
     if run.shard[0] == 0:
         for zc in trained.ZERO_KEYSPACE_CASES:
             run.ev('zero_keyspace_trainings')
@@ -369,7 +400,9 @@ def run(run, rng):
         run.guard(gen_case(rng), check_case, seconds=300)
 
 def replay(run, case):
-    if case['case'].get('distribution'):
+    if case['case'].get('long_run'):
+        check_long_run(run, case['case'])
+    elif case['case'].get('distribution'):
         check_distribution(run, case['case'])
     else:
         check_case(run, case['case'])
